@@ -31,6 +31,10 @@ struct Case {
     entry: Entry,
     /// named fields are raw identifiers
     raw: bool,
+    /// the definition comes out of a macro_rules! macro; the #[debug(..)] attributes arrive as `meta` fragments of the call
+    via_macro: bool,
+    /// enum variants are named with raw identifiers (r#fn, r#match, ..), unit variants included
+    raw_variants: bool,
     /// generic types: `Debug(bound(T: Debug))` instead of the default bounds
     explicit_bound: bool,
 }
@@ -86,6 +90,14 @@ fn gen(ch: &mut Ch, thorough: bool) -> Option<Case> {
     if raw && (generic || entry == Entry::Derive || dev > 1 || !shape.variants.iter().any(|v| v.kind == SKind::Named && v.n > 0)) {
         return None;
     }
+    let raw_variants = ch.flag();
+    if raw_variants && (!shape.is_enum || generic || raw || explicit_bound || dev > 1 || entry == Entry::Derive) {
+        return None;
+    }
+    let via_macro = ch.flag();
+    if via_macro && (dev == 0 || raw || raw_variants || explicit_bound || entry == Entry::Derive && !thorough) {
+        return None;
+    }
     if generic && !shape.variants.iter().enumerate().any(|(vi, v)| (0..v.n).any(|fi| tyidx(vi, fi) == 0)) {
         return None; // no field of type T
     }
@@ -95,7 +107,26 @@ fn gen(ch: &mut Ch, thorough: bool) -> Option<Case> {
     if generic && dev > 1 && !thorough {
         return None;
     }
-    Some(Case { vector: ch.vector(), shape, marks, generic, entry, raw, explicit_bound })
+    Some(Case { vector: ch.vector(), shape, marks, generic, entry, raw, via_macro, raw_variants, explicit_bound })
+}
+
+/// replaces the identifier `from` (as a whole word) by `to`
+fn replace_word(text: &str, from: &str, to: &str) -> String {
+    let b: Vec<char> = text.chars().collect();
+    let f: Vec<char> = from.chars().collect();
+    let mut out = String::new();
+    let mut i = 0;
+    let is_id = |c: char| c.is_alphanumeric() || c == '_';
+    while i < b.len() {
+        if b[i..].starts_with(&f) && (i == 0 || !is_id(b[i - 1]) && b[i - 1] != '#') && (i + f.len() >= b.len() || !is_id(b[i + f.len()])) {
+            out.push_str(to);
+            i += f.len();
+        } else {
+            out.push(b[i]);
+            i += 1;
+        }
+    }
+    out
 }
 
 fn two_transparent(c: &Case) -> bool {
@@ -173,7 +204,11 @@ fn build_inner(c: &Case, tier: &str) -> XCase {
     };
     let mut s = String::new();
     s.push_str("#[derive(Debug, Clone, Copy)] pub struct Inner { pub a: u8, pub b: Option<i8> }\n");
-    s.push_str(&format!("pub mod dx {{ use derive_ex::{{derive_ex, Ex}}; use super::Inner;\n{head}\n{}\n}}\n", item.print()));
+    let definition = match (c.via_macro, macroize_helper_attrs(&head, &item.print())) {
+        (true, Some(m)) => m,
+        _ => format!("{head}\n{}", item.print()),
+    };
+    s.push_str(&format!("pub mod dx {{ use derive_ex::{{derive_ex, Ex}}; use super::Inner;\n{definition}\n}}\n"));
     s.push_str(&format!("pub mod tw {{ use super::Inner;\n#[derive(Debug)]\n{}\n}}\n", twin.print()));
     s.push_str("macro_rules! specs { ($e:expr) => { vec![");
     for sp in SPECS {
@@ -221,12 +256,19 @@ fn build_inner(c: &Case, tier: &str) -> XCase {
     atoms.insert(format!("kind={}", if sh.is_enum { "enum" } else { "struct" }));
     atoms.insert(format!("generic={}", c.generic));
     atoms.insert(format!("raw={}", c.raw));
+    atoms.insert(format!("via_macro={}", c.via_macro));
+    atoms.insert(format!("raw_variants={}", c.raw_variants));
     let nign = c.marks.iter().flatten().filter(|k| **k == Mark::Ignore).count();
     let ntr = c.marks.iter().flatten().filter(|k| **k == Mark::Transparent).count();
     atoms.insert(format!("ignored={nign}"));
     atoms.insert(format!("transparent={ntr}"));
+    if c.raw_variants {
+        for (from, to) in [("A", "r#fn"), ("B", "r#match"), ("C", "r#loop"), ("D", "r#move"), ("E", "r#ref"), ("F", "r#use")] {
+            s = replace_word(&s, from, to);
+        }
+    }
     XCase {
-        text: format!("{} {} {}", c.entry.name(), list, item.print()),
+        text: format!("{} {} {}{}{}", c.entry.name(), list, item.print(), if c.raw_variants { " [variants named r#fn, r#match, ..]" } else { "" }, if c.via_macro { " [generated by macro_rules!, helper attributes as meta fragments]" } else { "" }),
         code: s,
         expected: exp,
         atoms,
